@@ -147,3 +147,9 @@ pub broadcast proof fn axiom_str_ext(a: &str, b: &str)
     ensures a == b,
 {}
 
+// `s.trim_end_matches(c)` for a char pattern: every trailing occurrence of c removed (std documentation restated over the char view)
+pub open spec fn strip_trailing(s: Seq<char>, c: char) -> Seq<char>
+    decreases s.len()
+{ if s.len() > 0 && s[s.len() - 1] == c { strip_trailing(s.subrange(0, s.len() - 1), c) } else { s } }
+#[verifier::external_body]
+fn shim_trim_end_matches_char<'a>(s: &'a str, c: char) -> (r: &'a str) ensures r@ == strip_trailing(s@, c) { s.trim_end_matches(c) }
